@@ -2,7 +2,7 @@
     Model/Session.v, the histories the harness ran against the real limiter,
     handleLogin and Auth, and compares the projected observables step by
     step. *)
-From AGH Require Import Base.Run Model.RateLimit Model.Session.
+From AGH Require Import Base.Run Model.RateLimit Model.Session Model.SessionConc.
 From stdpp Require Import gmap.
 Local Open Scope Z_scope.
 
@@ -47,6 +47,26 @@ Inductive sess_op :=
   | XRestart (now : N)
   | XSetExp (raw e : N).                  (* harness edit standing for the passage of time *)
 
+(** Round 5.  Operations of a concurrent request; [sp] / [raw] are dictionary
+    indices. *)
+Inductive conc_op :=
+  | YRead (tag : N)
+  | YCheck (now sp : N)
+  | YRemove (sp : N)
+  | YAdd (now raw : N) (user : bytes).
+
+(** [ESpawn]: a request starts.  [ESettle labs tabs]: every request is parked
+    on [a.lock], parked on the write transaction, or finished; [labs] says
+    where each one is ([label_code]), [tabs] is the map in memory and the
+    bucket at that moment. *)
+Inductive conc_ev :=
+  | ESpawn (ops : list conc_op)
+  | ESettle (labs : list Z) (tabs : stable * stable)
+  (* the process as it would come up if it were killed right now: the file was
+     copied while everything was parked and loaded by a second InitAuth; [tabs]
+     is what that loaded *)
+  | ECrash (now : N) (tabs : stable * stable).
+
 Inductive case :=
   | CLim (max : N) (ttl block : Z) (steps : list (lim_op * ltable))
   | CLogin (max : N) (ttl block : Z) (tol : Z) (steps : list login_step)
@@ -55,7 +75,14 @@ Inductive case :=
      login history through handleLogin with the Auth it returned.  Observed:
      [Auth.rateLimiter != nil] and its blockDur / maxAttempts fields. *)
   | CInitLogin (attempts block_min : Z) (obs_present : bool) (obs_block : Z) (obs_max : N) (tol : Z)
-               (steps : list login_step).
+               (steps : list login_step)
+  (* round 5: requests run concurrently against one Auth.  [pre]: sequential
+     steps that build the start state (as in [CSess]); [evs]: requests
+     starting and the points at which every request was seen parked or
+     finished; [res]: per request, 0 served / 3 refused; [post]: sequential
+     steps afterwards (replays of the cookies, restarts). *)
+  | CConc (dict : list bytes) (ttl : N) (pre : list (sess_op * (stable * stable)))
+          (evs : list conc_ev) (res : list Z) (post : list (sess_op * (stable * stable))).
 
 (** * Comparison of tables *)
 
@@ -185,6 +212,161 @@ Fixpoint sess_replay (dict : list bytes) (st : sstate) (i : Z) (l : list (sess_o
       then sess_replay dict st' (i + 1) l' else i
   end.
 
+
+(** * Round 5: concurrent requests
+
+    The harness cannot choose every interleaving, and what it observes of one
+    (where each request is parked, the tables) does not always determine the
+    order of the steps in between.  So the replay asks: is there an
+    interleaving of the MODEL'S steps that passes through every observation?
+    [S] is the set of model states compatible with the observations so far. *)
+
+Definition label_code (l : label) : Z :=
+  match l with
+  | WDone => 0 | WCheck => 1 | WCheckPut => 2 | WCheckDel => 3 | WRemove => 4 | WRemoveDel => 5
+  | WAdd => 6 | WAddPut => 7 | WRead tag => 10 + Z.of_N tag | WHidden => -1
+  end.
+
+Definition conc_cop (dict : list bytes) (o : conc_op) : cop :=
+  match o with
+  | YRead tag => ORead tag
+  | YCheck now sp => OCheck now (key dict sp)
+  | YRemove sp => ORemove (key dict sp)
+  | YAdd now raw u => OAdd now (key dict raw) u
+  end.
+
+Fixpoint labels_match (cfg : ccfg) (labs : list Z) (thr : list thread) : bool :=
+  match labs, thr with
+  | [], [] => true
+  | l :: labs', t :: thr' => (label_code (tlabel cfg t) =? l) && labels_match cfg labs' thr'
+  | _, _ => false
+  end.
+
+Global Instance sess_eq_dec : EqDecision sess.
+Proof. solve_decision. Defined.
+Global Instance cs_result_eq_dec : EqDecision cs_result.
+Proof. solve_decision. Defined.
+Global Instance cop_eq_dec : EqDecision cop.
+Proof. solve_decision. Defined.
+Global Instance pc_eq_dec : EqDecision pc.
+Proof. solve_decision. Defined.
+Global Instance thread_eq_dec : EqDecision thread.
+Proof. solve_decision. Defined.
+
+(** Equality of what the future and the verdict depend on (the ghost fields
+    are left out). *)
+Definition cstate_same (a b : cstate) : bool :=
+  bool_decide (c_mem a = c_mem b) && bool_decide (c_disk a = c_disk b) &&
+  bool_decide (c_lock a = c_lock b) && bool_decide (c_thr a = c_thr b).
+
+Fixpoint dedup_states (l : list cstate) : list cstate :=
+  match l with
+  | [] => []
+  | a :: l' =>
+      let r := dedup_states l' in
+      if existsb (cstate_same a) r then r else a :: r
+  end.
+
+(** All interleavings in which every thread runs up to the place it was seen
+    at and no further: breadth first, one step of one thread per level, equal
+    states merged (the state space is the product of a few program counters;
+    the number of paths is not).  A thread that has finished although it was
+    seen elsewhere has overshot: that branch is dropped. *)
+Fixpoint overshot (cfg : ccfg) (labs : list Z) (thr : list thread) : bool :=
+  match labs, thr with
+  | l :: labs', t :: thr' => (finished t && negb (l =? 0)) || overshot cfg labs' thr'
+  | _, _ => false
+  end.
+
+Definition successors (cfg : ccfg) (labs : list Z) (st : cstate) : list cstate :=
+  flat_map (fun i =>
+    match c_thr st !! i, labs !! i with
+    | Some t, Some l =>
+        if label_code (tlabel cfg t) =? l then []
+        else match cstep cfg i st with
+             | Some st' => if overshot cfg labs (c_thr st') then [] else [st']
+             | None => []
+             end
+    | _, _ => []
+    end) (seq 0 (length (c_thr st))).
+
+Fixpoint advance_bfs (cfg : ccfg) (fuel : nat) (labs : list Z) (frontier acc : list cstate) : list cstate :=
+  let arrived := filter (fun st => labels_match cfg labs (c_thr st)) frontier in
+  let moving := filter (fun st => negb (labels_match cfg labs (c_thr st))) frontier in
+  let acc' := dedup_states (acc ++ arrived) in
+  match fuel, moving with
+  | _, [] => acc'
+  | O, _ => acc'
+  | S f, _ => advance_bfs cfg f labs (dedup_states (flat_map (successors cfg labs) moving)) acc'
+  end.
+
+Definition advance (cfg : ccfg) (fuel : nat) (labs : list Z) (st : cstate) : list cstate :=
+  advance_bfs cfg fuel labs [st] [].
+
+(** Somebody seen waiting for [a.lock] means somebody is inside a section. *)
+Definition settled_ok (cfg : ccfg) (st : cstate) : bool :=
+  forallb (fun t => negb (label_needs_lock (tlabel cfg t)) || match c_lock st with Some _ => true | None => false end) (c_thr st).
+
+Definition conc_fuel : nat := 64.
+
+Definition conc_event (cfg : ccfg) (dict : list bytes) (e : conc_ev) (sts : list cstate) : list cstate :=
+  match e with
+  | ESpawn ops => map (cspawn (map (conc_cop dict) ops)) sts
+  | ESettle labs (m, d) =>
+      dedup_states
+        (filter (fun st => settled_ok cfg st && stab_ok dict (c_mem st) m && stab_ok dict (c_disk st) d)
+                (flat_map (advance cfg conc_fuel labs) sts))
+  | ECrash now (m, d) =>
+      filter (fun st => let r := crestart now st in stab_ok dict (c_mem r) m && stab_ok dict (c_disk r) d) sts
+  end.
+
+Fixpoint conc_events (cfg : ccfg) (dict : list bytes) (sts : list cstate) (i : Z) (evs : list conc_ev) : Z * list cstate :=
+  match evs with
+  | [] => (0, sts)
+  | e :: evs' =>
+      match conc_event cfg dict e sts with
+      | [] => (i, [])
+      | sts' => conc_events cfg dict sts' (i + 1) evs'
+      end
+  end.
+
+Definition thread_refused (t : thread) : bool :=
+  match t_res t with
+  | CSOK :: _ | [] => false
+  | _ => true
+  end.
+
+Fixpoint results_match (res : list Z) (thr : list thread) : bool :=
+  match res, thr with
+  | [], [] => true
+  | r :: res', t :: thr' =>
+      finished t && (if thread_refused t then r =? 3 else r =? 0) && results_match res' thr'
+  | _, _ => false
+  end.
+
+(** The sequential prefix: as [sess_replay], returning the state. *)
+Fixpoint sess_replay_st (dict : list bytes) (st : sstate) (i : Z) (l : list (sess_op * (stable * stable))) : Z * sstate :=
+  match l with
+  | [] => (0, st)
+  | (o, (m, d)) :: l' =>
+      let '(st', ok) := sess_step dict o st in
+      if ok && stab_ok dict (ss_mem st') m && stab_ok dict (ss_disk st') d
+      then sess_replay_st dict st' (i + 1) l' else (i, st)
+  end.
+
+Definition conc_first_bad (dict : list bytes) (ttl : N) (pre : list (sess_op * (stable * stable)))
+    (evs : list conc_ev) (res : list Z) (post : list (sess_op * (stable * stable))) : Z :=
+  let '(i, st0) := sess_replay_st dict s_init 1 pre in
+  if negb (i =? 0) then i else
+  let n1 := Z.of_nat (length pre) in
+  let '(j, sts) := conc_events (code_cfg ttl) dict [of_sstate st0] (n1 + 1) evs in
+  if negb (j =? 0) then j else
+  let n2 := n1 + Z.of_nat (length evs) in
+  match filter (fun st => results_match res (c_thr st)) sts with
+  | [] => n2 + 1
+  | st :: _ => sess_replay dict (sstate_of st) (n2 + 2) post
+  end.
+
 Definition first_bad (c : case) : Z :=
   match c with
   | CLim max ttl block steps =>
@@ -196,6 +378,7 @@ Definition first_bad (c : case) : Z :=
       if init_ok att blk present oblock omax
       then login_replay_opt (mk_limiter {| ac_attempts := att; ac_block_min := blk |}) tol ∅ 0%N 1 steps
       else -1
+  | CConc dict ttl pre evs res post => conc_first_bad dict ttl pre evs res post
   end.
 
 Definition case_ok (c : case) : bool := first_bad c =? 0.
@@ -257,4 +440,15 @@ Definition explain (c : case) : Z * (ltable * list (Z * Z) * (list (bytes * (byt
            | Some c => [([108;105;109;105;116;101;114]%N, (rl_block c, rl_max c))]
            | None => [([110;111;110;101]%N, (0, 0%N))]
            end, login_outs_opt lim ∅ steps, ([], [])))
+  | CConc dict ttl pre evs res post =>
+      (* the tables of the first model state compatible with the observations
+         before the failing event (none: empty tables) *)
+      let '(i0, st0) := sess_replay_st dict s_init 1 pre in
+      let n1 := Z.of_nat (length pre) in
+      let k := Z.to_nat (i - n1 - 1) in
+      match snd (conc_events (code_cfg ttl) dict [of_sstate st0] (n1 + 1) (firstn k evs)) with
+      | st :: _ => (i, ([], map (fun t => (label_code (tlabel (code_cfg ttl) t), if thread_refused t then 3 else 0)) (c_thr st),
+                        (dump_s (c_mem st), dump_s (c_disk st))))
+      | [] => (i, ([], [], ([], [])))
+      end
   end.
